@@ -268,3 +268,30 @@ Proof.
   - constructor; [|apply IH; assumption].
     unfold inside. cbn [fst snd]. destruct Hr as [H1 H2]. exact (contained fs root p H1 H2).
 Qed.
+
+(* ------------------------------------------------------------------ what does not exist below the root is not served *)
+
+(* a plain relative path that the walk from the root cannot follow (some segment names nothing there) is answered 404 *)
+Theorem unreachable_404 fs root path :
+  ~ In "%"%char path -> is_abs path = false ->
+  walk fs [] true (clean (abs_segs root) ++ segs path) = None ->
+  fst (decide fs root path) = NotFound.
+Proof.
+  intros Hpct Habs Hw. unfold decide. rewrite (pct_decode_plain path Hpct), Habs.
+  destruct (match clean (segs path) with s :: _ => negb (beq s DOTDOT) | [] => true end); rewrite Hw; reflexivity.
+Qed.
+
+(* whatever is served as a file is a file of the file system, with exactly its content *)
+Theorem served_file_exists fs root path p c :
+  fst (decide fs root path) = ServeFile p c -> fs_file fs p = Some c.
+Proof.
+  unfold decide.
+  destruct (if is_abs (pct_decode path)
+            then (seg_prefix (clean (abs_segs root)) (clean (abs_segs (pct_decode path))), abs_segs (pct_decode path))
+            else (match clean (segs (pct_decode path)) with s :: _ => negb (beq s DOTDOT) | [] => true end,
+                  clean (abs_segs root) ++ segs (pct_decode path))) as [ins unclean].
+  cbn [fst]. destruct (walk fs [] true unclean) as [[q isdir]|]; [|discriminate].
+  destruct ins; [|discriminate]. destruct isdir; [discriminate|].
+  destruct (fs_file fs q) as [c0|] eqn:E; [|discriminate].
+  intros H. inversion H; subst. exact E.
+Qed.
